@@ -179,7 +179,7 @@ struct Model {
     mode: GameMode,
 }
 
-pub fn ops(tier: Tier) -> Vec<Op> {
+pub fn ops(_tier: Tier) -> Vec<Op> {
     let n = pool().len() as u8;
     let nl = LENS.len() as u8;
     let mut v = Vec::new();
@@ -292,8 +292,8 @@ pub fn run(tier: Tier) -> i32 {
             mode,
         };
         let mut a = Acc::new();
-        let depths: &[u16] = if mode == GameMode::Osu { tier.pick(&[5], &[6, 7]) } else { tier.pick(&[4], &[6]) };
-        let res = e2::run("C18", model, depths, tier.pick(20_000_000, 150_000_000), &mut a);
+        let depths: &[u16] = if mode == GameMode::Osu { tier.pick(&[5], &[8]) } else { tier.pick(&[4], &[7]) };
+        let res = e2::run_opts("C18", model, depths, tier.pick(20_000_000, 900_000_000), tier.thorough(), &mut a);
         // attach the mode to history replays
         for list in a.viols.values_mut() {
             for v in list.iter_mut() {
